@@ -5,6 +5,7 @@ module.
 """
 
 import math
+import string
 from typing import Any, Dict, List, Optional, Tuple, TypeVar, Union, cast
 
 import numba
@@ -1105,9 +1106,18 @@ def replace_dict_values(name: str,
     >>> replace_dict_values(name, dictionary, True)
     'something bla bla - [5_(5)_30] something else 76'
     """
+    # Names of the fields that actually appear in `name`. Only these need
+    # a string representation (an array that is not used in `name`, such as
+    # a 2D array, has no range representation and is left alone).
+    used_names = {
+        field_name.split('.')[0].split('[')[0]
+        for _, field_name, _, _ in string.Formatter().parse(name)
+        if field_name
+    }
+
     new_dict = {}
     for n, v in dictionary.items():
-        if isinstance(v, np.ndarray):
+        if isinstance(v, np.ndarray) and n in used_names:
             v = "[{0}]".format(get_mixed_range_representation(
                 v, filename_mode))
         new_dict[n] = v
